@@ -19,6 +19,7 @@ import (
 	"path/filepath"
 	"strings"
 	"sync"
+	"sync/atomic"
 	"time"
 
 	"github.com/q191201771/lal/pkg/base"
@@ -142,6 +143,38 @@ func scenarios() []scenario {
 			})
 			var tick uint32
 			e.Go("tick", func() { w.SM.VerifTick(&tick); w.SM.VerifTick(&tick) })
+		}},
+		{Name: "pub+play+two-stat-readers", Build: func(w *world.W, e *sched.Exec) {
+			// two API clients that USE what the stat calls return (as the HTTP API does when it serialises
+			// the answer) while sessions come and go: a result handed out must not change under its reader
+			rtmpThread(w, e, "publisher", rtmpScript("publish", "s", mediaMsgs(1)))
+			rtmpThread(w, e, "player", rtmpScript("play", "s", nil))
+			use := func(g *base.StatGroup) int {
+				if g == nil {
+					return 0
+				}
+				n := len(g.StreamName) + len(g.StatPub.SessionId) + len(g.StatPull.SessionId)
+				for _, u := range g.StatSubs {
+					n += len(u.SessionId) + len(u.RemoteAddr) + int(u.ReadBytesSum)
+				}
+				return n
+			}
+			reader := func(name string) {
+				e.Go(name, func() {
+					g1 := w.SM.StatGroup("s")
+					all := w.SM.StatAllGroup()
+					g2 := w.SM.StatGroup("s")
+					// (the results are read after later calls have been made, the way a slow client of the API
+					// holds its answer)
+					n := use(g1) + use(g2)
+					for i := range all {
+						n += use(&all[i])
+					}
+					statSink(n)
+				})
+			}
+			reader("api-stat-A")
+			reader("api-stat-B")
 		}},
 		{Name: "two-publishers+player", Build: func(w *world.W, e *sched.Exec) {
 			rtmpThread(w, e, "publisherA", rtmpScript("publish", "s", mediaMsgs(1)))
@@ -500,6 +533,11 @@ func firstLalFrame(s string) string {
 }
 
 // raceKey: the two innermost lal frames of the report (stable across runs).
+var statSinkV int64
+
+//go:noinline
+func statSink(n int) { atomic.AddInt64(&statSinkV, int64(n)) }
+
 func raceKey(s string) string {
 	var fr []string
 	for _, l := range strings.Split(s, "\n") {
@@ -520,6 +558,9 @@ func raceKey(s string) string {
 				break
 			}
 		}
+	}
+	if len(fr) == 1 {
+		fr = append(fr, "caller-of-the-api") // the other access is in the code that uses an API result
 	}
 	return strings.Join(fr, "~")
 }
